@@ -10,10 +10,18 @@
 // m.fallbacks, …)`, i.e. through the code modelled by CharonV.Provide with the configured primary
 // and fallback nodes. The theorem CharonV.Provide.every_endpoint_routed consumes the table.
 //
+// The three leading arguments are compared after def-use normalisation inside the method: an
+// identifier that names a local variable defined exactly once, by `x := e` / `x, y := e1, e2` /
+// `var x = e` in the statement list of the method body itself, never assigned again (neither the
+// variable nor an element / field of it), never address-taken, never redeclared in an inner scope
+// or as a closure parameter, and not named like the receiver / a parameter / a result, stands for
+// its defining expression `e`. The context argument must then be the method's own parameter of
+// type context.Context (whatever its name).
+//
 // Fails closed (exit 1, nothing written) on Go it does not understand: a call of provide/submit
-// whose context / clients / fallbacks arguments are not exactly (ctx, <recv>.clients,
-// <recv>.fallbacks), more than one such call in a method, a routed method whose receiver is
-// unnamed, a method declared twice, or a file that does not parse.
+// whose context / clients / fallbacks arguments are not, after that normalisation, (<the context
+// parameter>, <recv>.clients, <recv>.fallbacks), more than one such call in a method, a routed
+// method whose receiver is unnamed, a method declared twice, or a file that does not parse.
 //
 // usage: trans-multi <out.lean>
 package main
@@ -84,6 +92,198 @@ func calleeName(e ast.Expr) string {
 	return ""
 }
 
+// rootIdent strips index / selector / star / paren / slice wrappers: the variable an lvalue or an
+// address-of operand lives in.
+func rootIdent(e ast.Expr) *ast.Ident {
+	for {
+		switch x := e.(type) {
+		case *ast.Ident:
+			return x
+		case *ast.ParenExpr:
+			e = x.X
+		case *ast.IndexExpr:
+			e = x.X
+		case *ast.IndexListExpr:
+			e = x.X
+		case *ast.SelectorExpr:
+			e = x.X
+		case *ast.StarExpr:
+			e = x.X
+		case *ast.SliceExpr:
+			e = x.X
+		default:
+			return nil
+		}
+	}
+}
+
+type localDef struct {
+	expr ast.Expr
+	pos  token.Pos
+}
+
+// singleDefLocals returns the locals of fd that may be replaced by their defining expression (see
+// the package comment). Purely syntactic and conservative: every write / declaration / address-of
+// occurrence of a NAME anywhere in the body counts, whatever scope it is in.
+func singleDefLocals(fd *ast.FuncDecl) map[string]localDef {
+	reserved := map[string]bool{}
+	addFields := func(fl *ast.FieldList) {
+		if fl == nil {
+			return
+		}
+		for _, f := range fl.List {
+			for _, n := range f.Names {
+				reserved[n.Name] = true
+			}
+		}
+	}
+	addFields(fd.Recv)
+	addFields(fd.Type.Params)
+	addFields(fd.Type.Results)
+
+	cand := map[string]localDef{}
+	dupCand := map[string]bool{}
+	add := func(id *ast.Ident, e ast.Expr) {
+		if id.Name == "_" {
+			return
+		}
+		if _, ok := cand[id.Name]; ok {
+			dupCand[id.Name] = true
+		}
+		cand[id.Name] = localDef{e, id.End()}
+	}
+	for _, st := range fd.Body.List {
+		switch s := st.(type) {
+		case *ast.AssignStmt:
+			if s.Tok != token.DEFINE || len(s.Lhs) != len(s.Rhs) {
+				continue
+			}
+			for i, l := range s.Lhs {
+				if id, ok := l.(*ast.Ident); ok {
+					add(id, s.Rhs[i])
+				}
+			}
+		case *ast.DeclStmt:
+			gd, ok := s.Decl.(*ast.GenDecl)
+			if !ok || gd.Tok != token.VAR {
+				continue
+			}
+			for _, sp := range gd.Specs {
+				vs, ok := sp.(*ast.ValueSpec)
+				if !ok || len(vs.Names) != len(vs.Values) {
+					continue
+				}
+				for i, n := range vs.Names {
+					add(n, vs.Values[i])
+				}
+			}
+		}
+	}
+
+	writes := map[string]int{}
+	bad := map[string]bool{}
+	write := func(e ast.Expr) {
+		if id := rootIdent(e); id != nil {
+			writes[id.Name]++
+		} else if e != nil {
+			// an lvalue this translator cannot attribute to a variable: nothing is resolvable
+			bad["*"] = true
+		}
+	}
+	ast.Inspect(fd.Body, func(n ast.Node) bool {
+		switch x := n.(type) {
+		case *ast.AssignStmt:
+			for _, l := range x.Lhs {
+				write(l)
+			}
+		case *ast.IncDecStmt:
+			write(x.X)
+		case *ast.RangeStmt:
+			if x.Key != nil {
+				write(x.Key)
+			}
+			if x.Value != nil {
+				write(x.Value)
+			}
+		case *ast.UnaryExpr:
+			if x.Op == token.AND {
+				if id := rootIdent(x.X); id != nil {
+					bad[id.Name] = true
+				}
+			}
+		case *ast.ValueSpec:
+			for _, nm := range x.Names {
+				writes[nm.Name]++
+			}
+		case *ast.FuncLit:
+			for _, fl := range []*ast.FieldList{x.Type.Params, x.Type.Results} {
+				if fl == nil {
+					continue
+				}
+				for _, f := range fl.List {
+					for _, nm := range f.Names {
+						bad[nm.Name] = true
+					}
+				}
+			}
+		}
+		return true
+	})
+	out := map[string]localDef{}
+	if bad["*"] {
+		return out
+	}
+	for name, d := range cand {
+		if reserved[name] || dupCand[name] || bad[name] || writes[name] != 1 {
+			continue
+		}
+		out[name] = d
+	}
+	return out
+}
+
+// resolve replaces an identifier that names a single-definition local (defined before `e`) by its
+// defining expression, repeatedly.
+func resolve(e ast.Expr, locals map[string]localDef) ast.Expr {
+	for i := 0; i < 8; i++ {
+		if p, ok := e.(*ast.ParenExpr); ok {
+			e = p.X
+			continue
+		}
+		id, ok := e.(*ast.Ident)
+		if !ok {
+			return e
+		}
+		d, ok := locals[id.Name]
+		if !ok || d.pos > id.Pos() {
+			return e
+		}
+		e = d.expr
+	}
+	return e
+}
+
+// ctxParam is the name of the method's parameter of type context.Context ("" if none or several).
+func ctxParam(fd *ast.FuncDecl) string {
+	name := ""
+	for _, p := range fd.Type.Params.List {
+		sel, ok := p.Type.(*ast.SelectorExpr)
+		if !ok || sel.Sel.Name != "Context" {
+			continue
+		}
+		if x, ok := sel.X.(*ast.Ident); !ok || x.Name != "context" {
+			continue
+		}
+		for _, nm := range p.Names {
+			if name != "" || nm.Name == "_" {
+				return ""
+			}
+			name = nm.Name
+		}
+	}
+	return name
+}
+
 func main() {
 	if len(os.Args) != 2 {
 		fail("usage: trans-multi <out.lean>")
@@ -117,6 +317,8 @@ func main() {
 			if fd.Body == nil {
 				fail("method %s has no body", fd.Name.Name)
 			}
+			locals := singleDefLocals(fd)
+			ctxName := ctxParam(fd)
 			ast.Inspect(fd.Body, func(nd ast.Node) bool {
 				call, ok := nd.(*ast.CallExpr)
 				if !ok {
@@ -130,13 +332,17 @@ func main() {
 				if len(call.Args) < 4 {
 					fail("%s: %s called with %d arguments", pos, name, len(call.Args))
 				}
-				if id, ok := call.Args[0].(*ast.Ident); !ok || id.Name != "ctx" {
-					fail("%s: first argument of %s is not the method's ctx", pos, name)
+				// the ctx handed to provide must be the method's own context parameter
+				if ctxName == "" {
+					fail("method %s routes a request but has no (single, named) context.Context parameter", fd.Name.Name)
 				}
-				if !isSel(call.Args[1], recv, "clients") {
+				if id, ok := resolve(call.Args[0], locals).(*ast.Ident); !ok || id.Name != ctxName {
+					fail("%s: first argument of %s is not the method's context parameter %s", pos, name, ctxName)
+				}
+				if !isSel(resolve(call.Args[1], locals), recv, "clients") {
 					fail("%s: %s is not called with %s.clients as primary nodes", pos, name, recv)
 				}
-				if !isSel(call.Args[2], recv, "fallbacks") {
+				if !isSel(resolve(call.Args[2], locals), recv, "fallbacks") {
 					fail("%s: %s is not called with %s.fallbacks as fallback nodes", pos, name, recv)
 				}
 				n++
@@ -146,20 +352,6 @@ func main() {
 			})
 			if n > 1 {
 				fail("method %s calls provide/submit %d times", fd.Name.Name, n)
-			}
-			// the ctx handed to provide must be the method's own parameter
-			if n == 1 {
-				hasCtx := false
-				for _, p := range fd.Type.Params.List {
-					for _, nm := range p.Names {
-						if nm.Name == "ctx" {
-							hasCtx = true
-						}
-					}
-				}
-				if !hasCtx {
-					fail("method %s routes a request but has no ctx parameter", fd.Name.Name)
-				}
 			}
 			r.routed = n == 1
 			rows[r.name] = r
